@@ -345,3 +345,41 @@ pub(crate) fn bind_res_addr<A: SocketAddress>(f: &super::Bind<'_, A>) -> usize {
 pub(crate) fn send_to_res_addr<B: Buf, A: SocketAddress>(f: &super::SendTo<'_, B, A>) -> usize { ops::resources_addr(&f.state) }
 pub(crate) fn accept_res_addr<A: SocketAddress>(f: &super::Accept<'_, A>) -> usize { ops::resources_addr(&f.state) }
 use super::SocketAddress;
+
+//@ prop: C09
+//@ tier: quick
+//@ what: re-issuing an accept: the address-length in/out parameter the kernel may have overwritten during the first attempt is RESET to the size of the address storage by the second fill_submission, and the second submission is otherwise identical to the first (same pointers into the same resources, same flags) -- so no data of the first attempt leaks into the second
+//@ bound: accept::<SocketAddr> (either family, storage 28 bytes); the first attempt left any length 0..=28 behind (symbolic); accept flags symbolic; regular or direct listener
+//@ encodes: <io_uring::net::AcceptOp<SocketAddr> as FdOp>::fill_submission (called twice on the same resources)
+//@ stubs: crate::lock -> try_lock model; <core::io::CustomOwner as Drop>::drop -> no-op
+#[kani::proof]
+#[kani::unwind(3)]
+#[kani::stub(crate::lock, crate::verif_stubs::lock_model)]
+#[kani::stub(<core::io::CustomOwner as core::ops::Drop>::drop, crate::verif_stubs::custom_owner_drop_noop)]
+fn c09_accept_refill_resets_length() {
+    use crate::io_uring::net::AcceptOp;
+    use crate::io_uring::op::FdOp;
+    use std::net::SocketAddr;
+    let fd = rig();
+    let flags: u32 = kani::any();
+    let mut fut = fd.accept::<SocketAddr>().flags(super::AcceptFlag(flags));
+    let (res, args) = ops::resources_args(&mut fut.state);
+    let mut first = k::new_submission();
+    <AcceptOp<SocketAddr> as FdOp>::fill_submission(&fd, res, args, &mut first);
+    let e1 = k::submission_view(&first);
+    let len_ptr = e1.off as *mut libc::socklen_t;
+    assert!(unsafe { *len_ptr } == 28, "first attempt: room for the whole storage");
+    // the kernel (or the first, cancelled attempt) left a shorter length behind
+    let left_behind: libc::socklen_t = kani::any();
+    kani::assume(left_behind <= 28);
+    unsafe { *len_ptr = left_behind };
+    let mut second = k::new_submission();
+    <AcceptOp<SocketAddr> as FdOp>::fill_submission(&fd, res, args, &mut second);
+    let e2 = k::submission_view(&second);
+    assert!(e2 == e1, "re-issued with the same arguments and the same resources");
+    assert!(unsafe { *(e2.off as *const libc::socklen_t) } == 28, "length in/out parameter reset before the second attempt");
+    kani::cover!(left_behind == 16);
+    kani::cover!(left_behind == 0);
+    std::mem::forget(fut);
+    std::mem::forget(fd);
+}
